@@ -22,6 +22,7 @@ ASSUMPTIONS = ["zstd encode_all / decode_all are inverse (library)", "Redis comm
 TRUSTED = ["zstd crate"]
 
 MUTANTS = [
+    {"name": "mset-value-index-off-by-one", "file": "src/proxy/executor.rs", "after": "async fn handle_mset(", "old": "            let value = match cmd_ctx.get_cmd().get_command_element(2 * i + 2) {", "new": "            let value = match cmd_ctx.get_cmd().get_command_element(2 * i + 3) {", "expect": "C20.D5:handle_mset"},
     {"name": "precompressed-values-skipped", "file": "src/proxy/compress.rs", "old": "        let compressed = match zstd::encode_all(value, 1) {", "new": "        if value.starts_with(&[0x28, 0xB5, 0x2F, 0xFD]) {\n            return Ok(());\n        }\n        let compressed = match zstd::encode_all(value, 1) {", "expect": "C20.D5:encode-unconditional"},
     {"name": "single-key-mget-not-split", "file": "src/proxy/executor.rs", "old": "            DataCmdType::Mget => {\n                CmdReplyFuture::Right", "new": "            DataCmdType::Mget if cmd_ctx.get_cmd().get_command_element(2).is_some() => {\n                CmdReplyFuture::Right", "expect": "C20.D5:dispatch:MGET"},
     {"name": "setex-value-index", "file": "src/proxy/compress.rs", "old": "DataCmdType::Psetex | DataCmdType::Setex => OptionalMulti::Single(3),", "new": "DataCmdType::Psetex | DataCmdType::Setex => OptionalMulti::Single(2),", "expect": "C20.D1:SETEX"},
@@ -160,6 +161,7 @@ def run(ctx):
     _wiring(ctx)
     _unconditional_transform(ctx)
     _dispatch_table(ctx)
+    _mset_pairs(ctx)
 
 
 def _wiring(ctx):
@@ -284,3 +286,37 @@ def _dispatch_table(ctx):
         ctx.check(not (ded and "handle_single_key_data_cmd" in hs), "C20.D5", "dispatch:%s" % cmd, site(b), ok="%s -> %s" % (cmd, hs),
                   bad="%s has the dedicated handler %s but can also fall through to the single-key path, where the compressor does not know how to treat it (refused / not decoded): the command answers an error or undecoded data depending on its argument count" % (cmd, ded))
     ctx.floor("C20.D5", "string commands dispatched", n, 20)
+
+
+def _mset_pairs(ctx):
+    """MSET / MSETNX are split into per-key commands: pair i is (element 2i+1, element 2i+2); in handle_mset the
+    sub-command is [SET, key_i, value_i] in that order.  A wrong index pairs a key with a neighbour's value (or with
+    itself) - the written value is not the one read back"""
+    from ..lib import affine
+    F = ctx.F
+    for fn in ("handle_mset", "handle_msetnx"):
+        bs = [x for x in F.all_bodies(bins=False) if x.path == "proxy::executor::ForwardHandler::%s::{closure#0}" % fn]
+        if not bs:
+            ctx.lost("C20.D5", "%s-pairs" % fn, "async body not found")
+            continue
+        b = bs[0]
+        ctx.analysed(b)
+        du = DefUse(b)
+        gets = {}
+        for bb, t in b.calls():
+            if (callee_of(t) or "").endswith("get_command_element") and len(t["args"]) > 1:
+                gets[bb] = affine(b, du, t["args"][1])
+        idx = sorted({v for v in gets.values() if v is not None})
+        ctx.check(idx == [(2, 1), (2, 2)], "C20.D5", "%s:pair-indexes" % fn, site(b), ok="pair i = elements 2i+1 (key) and 2i+2 (value)", bad="%s reads the elements %s (as coef*i+const) instead of 2i+1 and 2i+2" % (fn, idx or list(gets.values())))
+        if fn == "handle_mset":
+            arrs = [(bb, i, st) for bb, i, st in b.assigns() if st["rv"]["k"] == "agg" and st["rv"].get("ak") == "array" and len(st["rv"]["ops"]) == 3]
+            ok = False
+            for bb, i, st in arrs:
+                pos = []
+                for o in st["rv"]["ops"][1:]:
+                    sl = du.slice_operand(o)
+                    hit = sorted({gets[g] for c, bbs in sl.calls.items() if c.endswith("get_command_element") for g in bbs if gets.get(g) is not None})
+                    pos.append(hit)
+                if pos == [[(2, 1)], [(2, 2)]]:
+                    ok = True
+            ctx.check(ok, "C20.D5", "handle_mset:sub-command-order", site(b), ok="sub-command = [SET, element 2i+1, element 2i+2]", bad="the SET sub-command is not built as [SET, key_i, value_i]")
